@@ -130,16 +130,17 @@ class SrcInfo:
             return ORDERING.get(variant)
         if enum in STD_ENUMS:
             return STD_ENUMS[enum].index(variant) if variant in STD_ENUMS[enum] else None
-        v = self.enums.get(enum)
-        if not v:
-            return None
-        nxt = 0
-        for name, kind, nf, disc in v:
-            if disc is not None:
-                nxt = int(disc)
-            if name == variant:
-                return nxt
-            nxt += 1
+        cands = [self.enums.get(enum)] + [v for k, v in self.enums.items() if k.startswith(enum + '@')]
+        for v in cands:
+            if not v:
+                continue
+            nxt = 0
+            for name, kind, nf, disc in v:
+                if disc is not None:
+                    nxt = int(disc)
+                if name == variant:
+                    return nxt
+                nxt += 1
         return None
 
     def variant_name(self, enum, idx):
